@@ -16,6 +16,7 @@ import Rooc.Proofs.LinCounter
 import Rooc.Proofs.LinBridgeCounter
 import Rooc.Proofs.LinDExamples2
 import Rooc.Proofs.LinOpt
+import Rooc.Proofs.LinBridgeStatic
 namespace Rooc.Props.C02
 open Rooc Rooc.Lin Rooc.Sem Rooc.LinP
 
@@ -166,7 +167,7 @@ theorem c02_compile_min_optimum_partial {m : Model (Ext K)} {t : K} (ht : 0 ≤ 
     (hopt : ∀ ρ₂ : String → K, srcFeasible m ρ₂ = true → ∀ v₂, eval ρ₂ m.objective = some v₂ → v ≤ v₂) :
     (∃ ρ' : String → K, linFeasible lm ρ' = true ∧ linObjective lm ρ' = some v) ∧
     (∀ ρ'' : String → K, linFeasible lm ρ'' = true → ∀ w, linObjective lm ρ'' = some w → v ≤ w) := by
-  obtain ⟨an, han, hlin⟩ := (compile_ok_iff m _ maxSteps lm).mp h
+  obtain ⟨_, an, han, hlin⟩ := (compile_ok_iff m _ maxSteps lm).mp h
   obtain ⟨hdom, hbox⟩ := pipeline_hyps ht maxSteps hm hok han (Or.inl ht1)
   exact c02_min_optimum_partial hlin (fragModel_applyToDomain an hm) hdom hbox hmin ρ hs v hv hopt
 
@@ -212,17 +213,18 @@ theorem c02_logic_partial {m : Model (Ext K)} {b : BoundsMap (Ext K)} {d : List 
   logic_objective hm hdom hbox h ρ hs v hv
 
 open Rooc.BoundsProofs in
-/-- **C02 for the whole pipeline `Compile.linearize`, models with logic.** -/
+/-- **C02 for the whole pipeline `Compile.linearize`, models with logic.**  The contract is `StaticModel m` (declared
+used variables, finite literals): see `Rooc.Props.C01.c01_compile_logic_partial`. -/
 theorem c02_compile_logic_partial {m : Model (Ext K)} {t : K} (ht : 0 ≤ t) {maxSteps : Nat} {lm : LinModel (Ext K)}
     (h : Compile.linearize m (.fin t) maxSteps = .ok lm)
-    (hm : LogicModel m m.domain) (hsh : AssertShape m) (hok : DeclOK m.domain)
+    (hm : StaticModel m) (hsh : AssertShape m) (hok : DeclOK m.domain)
     (ht1 : t < 1 ∨ NoIntVars m.domain)
     (ρ : String → K) (hs : srcFeasible m ρ = true) (v : K) (hv : eval ρ m.objective = some v) :
     (∀ ρ' : String → K, (∀ x, inScope m.domain x → ρ' x = ρ x) → linFeasible lm ρ' = true →
         ∃ w, linObjective lm ρ' = some w ∧ rel (objReq m) w v) ∧
     (∃ ρ' : String → K, (∀ x, inScope m.domain x → ρ' x = ρ x) ∧ linFeasible lm ρ' = true ∧
         linObjective lm ρ' = some v) :=
-  compile_objective_logic ht h hm hsh hok ht1 ρ hs v hv
+  compile_objective_static ht h hm hsh hok ht1 ρ hs v hv
 
 /-- non-vacuity with real logic and a source-feasible point: `min a s.t. assert (a or b)` at `a = 0, b = 1`. -/
 example : ∃ (m : Model (Ext K)) (b : BoundsMap (Ext K)) (d : List (DomVar (Ext K))) (lm : LinModel (Ext K))
@@ -247,42 +249,42 @@ variable {m : Model (Ext K)} {t : K} {maxSteps : Nat} {lm : LinModel (Ext K)}
 
 /-- feasibility status: the source model has a feasible point iff the compiled model has. -/
 theorem c02_feasibility_status (ht : 0 ≤ t) (h : Compile.linearize m (.fin t) maxSteps = .ok lm)
-    (hm : LogicModel m m.domain) (hsh : AssertShape m) (hok : DeclOK m.domain) (ht1 : t < 1 ∨ NoIntVars m.domain) :
+    (hm : StaticModel m) (hsh : AssertShape m) (hok : DeclOK m.domain) (ht1 : t < 1 ∨ NoIntVars m.domain) :
     (∃ ρ : String → K, srcFeasible m ρ = true) ↔ ∃ ρ' : String → K, linFeasible lm ρ' = true :=
-  (objLink_of_compile ht h hm hsh hok ht1).empty_iff
+  (objLink_of_compile_static ht h hm hsh hok ht1).empty_iff
 
 /-- **minimisation**: same lower bounds of the attainable objective values (so: unbounded together), the minimum
 is attained by one model iff by the other and then has the same value, and the infimum is the same. -/
 theorem c02_min_optimum (ht : 0 ≤ t) (h : Compile.linearize m (.fin t) maxSteps = .ok lm)
-    (hm : LogicModel m m.domain) (hsh : AssertShape m) (hok : DeclOK m.domain) (ht1 : t < 1 ∨ NoIntVars m.domain)
+    (hm : StaticModel m) (hsh : AssertShape m) (hok : DeclOK m.domain) (ht1 : t < 1 ∨ NoIntVars m.domain)
     (hmin : m.optType = .min) :
     lowerBounds (linValues lm) = lowerBounds (srcValues m) ∧
     (∀ v, IsLeast (linValues lm) v ↔ IsLeast (srcValues m) v) ∧
     (∀ c, IsGLB (linValues lm) c ↔ IsGLB (srcValues m) c) :=
-  have L := objLink_of_compile ht h hm hsh hok ht1
+  have L := objLink_of_compile_static ht h hm hsh hok ht1
   ⟨L.lowerBounds_eq hmin, L.isLeast_iff hmin, L.isGLB_iff hmin⟩
 
 /-- **maximisation**, dually. -/
 theorem c02_max_optimum (ht : 0 ≤ t) (h : Compile.linearize m (.fin t) maxSteps = .ok lm)
-    (hm : LogicModel m m.domain) (hsh : AssertShape m) (hok : DeclOK m.domain) (ht1 : t < 1 ∨ NoIntVars m.domain)
+    (hm : StaticModel m) (hsh : AssertShape m) (hok : DeclOK m.domain) (ht1 : t < 1 ∨ NoIntVars m.domain)
     (hmax : m.optType = .max) :
     upperBounds (linValues lm) = upperBounds (srcValues m) ∧
     (∀ v, IsGreatest (linValues lm) v ↔ IsGreatest (srcValues m) v) ∧
     (∀ c, IsLUB (linValues lm) c ↔ IsLUB (srcValues m) c) :=
-  have L := objLink_of_compile ht h hm hsh hok ht1
+  have L := objLink_of_compile_static ht h hm hsh hok ht1
   ⟨L.upperBounds_eq hmax, L.isGreatest_iff hmax, L.isLUB_iff hmax⟩
 
 /-- **`Satisfy`**: the two models attain exactly the same objective values. -/
 theorem c02_satisfy_values (ht : 0 ≤ t) (h : Compile.linearize m (.fin t) maxSteps = .ok lm)
-    (hm : LogicModel m m.domain) (hsh : AssertShape m) (hok : DeclOK m.domain) (ht1 : t < 1 ∨ NoIntVars m.domain)
+    (hm : StaticModel m) (hsh : AssertShape m) (hok : DeclOK m.domain) (ht1 : t < 1 ∨ NoIntVars m.domain)
     (hsat : m.optType = .satisfy) : linValues lm = srcValues m :=
-  (objLink_of_compile ht h hm hsh hok ht1).values_eq hsat
+  (objLink_of_compile_static ht h hm hsh hok ht1).values_eq hsat
 
 /-- in every direction, each source objective value is attained by the linear model. -/
 theorem c02_values_attained (ht : 0 ≤ t) (h : Compile.linearize m (.fin t) maxSteps = .ok lm)
-    (hm : LogicModel m m.domain) (hsh : AssertShape m) (hok : DeclOK m.domain) (ht1 : t < 1 ∨ NoIntVars m.domain) :
+    (hm : StaticModel m) (hsh : AssertShape m) (hok : DeclOK m.domain) (ht1 : t < 1 ∨ NoIntVars m.domain) :
     srcValues m ⊆ linValues lm :=
-  (objLink_of_compile ht h hm hsh hok ht1).values_sub
+  (objLink_of_compile_static ht h hm hsh hok ht1).values_sub
 
 /-- the same three statements for `linearizeWith` with a given bounds map / domain. -/
 theorem c02_optimum_linearizeWith {b : BoundsMap (Ext K)} {d : List (DomVar (Ext K))}
